@@ -40,7 +40,7 @@ LOADS = [("i32.load", "i", 4), ("i64.load", "I", 8), ("f32.load", "i", 4), ("f64
 STORES = [("i32.store", "i", 4), ("i64.store", "I", 8), ("f32.store", "i", 4), ("f64.store", "I", 8),
           ("i32.store8", "i", 1), ("i32.store16", "i", 2), ("i64.store8", "I", 1), ("i64.store16", "I", 2),
           ("i64.store32", "I", 4)]
-OFFSETS = [0, 1, 7, 65528, 65535, 65536, 4294967295]
+OFFSETS = [0, 1, 7, 65528, 65535, 65536, 2147483640, 2147483648, 4294967288, 4294967295]
 WIDTH = dict((m, n) for m, _, n in LOADS + STORES)
 
 # instructions whose NaN results are nondeterministic in sign / payload (spec 4.3.3 "nans_N{z*}")
